@@ -23,7 +23,7 @@ def n_cases(tier):
 
 
 def gen_case(rng, tier, idx):
-    return arb.gen_arb(rng, tier, idx, soak_in_quick=False)     # C08 runs the soak scenarios in its quick tier
+    return arb.gen_arb(rng, tier, idx, soak_in_quick="unanswered")     # (C08 runs both soak scenarios in its quick tier)
 
 
 def run_case(case):
